@@ -903,6 +903,9 @@ func (o *ovsdbClient) MonitorCancel(ctx context.Context, cookie MonitorCookie) e
 func (o *ovsdbClient) Monitor(ctx context.Context, monitor *Monitor) (MonitorCookie, error) {
 	cookie := newMonitorCookie(o.primaryDBName)
 	db := o.databases[o.primaryDBName]
+	// lock order: rpcMutex before monitorsMutex, as connect() takes them
+	o.rpcMutex.RLock()
+	defer o.rpcMutex.RUnlock()
 	db.monitorsMutex.Lock()
 	defer db.monitorsMutex.Unlock()
 	return cookie, o.monitor(ctx, cookie, false, monitor)
@@ -922,15 +925,13 @@ func newMonitorRequest(data *mapper.Info, fields []string, conditions []ovsdb.Co
 	return &ovsdb.MonitorRequest{Columns: columns, Where: conditions, Select: ovsdb.NewDefaultMonitorSelect()}, nil
 }
 
-// monitor must only be called with a lock on monitorsMutex
+// monitor must only be called with a lock on rpcMutex and on monitorsMutex,
+// taken in that order
 //
 //gocyclo:ignore
 func (o *ovsdbClient) monitor(ctx context.Context, cookie MonitorCookie, reconnecting bool, monitor *Monitor) error {
-	// if we're reconnecting, we already hold the rpcMutex
-	if !reconnecting {
-		o.rpcMutex.RLock()
-		defer o.rpcMutex.RUnlock()
-	}
+	// the caller holds the rpcMutex (as reader, or as writer when reconnecting):
+	// it has to be taken before monitorsMutex, which the caller holds as well
 	if o.rpcClient == nil {
 		return ErrNotConnected
 	}
@@ -1124,6 +1125,8 @@ func (o *ovsdbClient) watchForLeaderChange() error {
 	m.Method = ovsdb.ConditionalMonitorRPC
 	m.Tables = []TableMonitor{{Table: "Database"}}
 	db := o.databases[serverDB]
+	o.rpcMutex.RLock()
+	defer o.rpcMutex.RUnlock()
 	db.monitorsMutex.Lock()
 	defer db.monitorsMutex.Unlock()
 	err := o.monitor(context.Background(), newMonitorCookie(serverDB), false, m)
